@@ -327,7 +327,8 @@ func Run(sc Scenario) *Trace {
 	if sc.Config.StepLimitMs > 0 {
 		r.limit = time.Duration(sc.Config.StepLimitMs) * time.Millisecond
 	}
-	tr := &Trace{Scenario: sc.Name, Mode: sc.Mode, DB: dbname, Steps: []StepResult{}}
+	tr := &Trace{Scenario: sc.Name, Mode: sc.Mode, DB: dbname, Steps: []StepResult{}, Journal: []Event{}, FinalDump: []fakedb.TableDump{}, FinalUndo: []UndoRow{},
+		PoolReturnsTx: []fakedb.JournalEntry{}, OpenTxAtEnd: []int{}, PreparedXA: []string{}, DBLocksAtEnd: []string{}, TCLocksAtEnd: []string{}, Globals: []tcstub.Global{}}
 	r.tr = tr
 	tr.ResourceID = strings.SplitN(r.dsn["at"], "?", 2)[0]
 	srv, err := fakedb.Driver.Server(r.dsn["bare"])
@@ -365,10 +366,12 @@ func Run(sc Scenario) *Trace {
 		delete(r.txs, k)
 	}
 	endSeq := fakedb.CurSeq()
-	tr.OpenTxAtEnd, tr.PreparedXA = srv.OpenTransactions()
-	tr.DBLocksAtEnd = srv.HeldLocks()
-	tr.TCLocksAtEnd = st.SortedLocks()
-	tr.Globals = st.Globals()
+	if c, x := srv.OpenTransactions(); true {
+		tr.OpenTxAtEnd, tr.PreparedXA = append(tr.OpenTxAtEnd, c...), append(tr.PreparedXA, x...)
+	}
+	tr.DBLocksAtEnd = append(tr.DBLocksAtEnd, srv.HeldLocks()...)
+	tr.TCLocksAtEnd = append(tr.TCLocksAtEnd, st.SortedLocks()...)
+	tr.Globals = append(tr.Globals, st.Globals()...)
 	tr.FinalDump = srv.Dump()
 	tr.FinalUndo = r.undoRows()
 	tr.Journal = r.merged(start, endSeq)
@@ -387,9 +390,6 @@ func Run(sc Scenario) *Trace {
 		return nil
 	})
 	fakedb.Driver.DropServer(r.dsn["bare"])
-	if tr.OpenTxAtEnd == nil {
-		tr.OpenTxAtEnd = []int{}
-	}
 	return tr
 }
 
@@ -528,6 +528,11 @@ func ClassifyErr(err error) string {
 func ClassifyText(t string) string {
 	l := strings.ToLower(t)
 	switch {
+	case strings.Contains(l, "atrun: business error"):
+		if strings.Contains(l, "second phase error: <nil>") {
+			return "business"
+		}
+		return "business+phase2"
 	case strings.Contains(l, "global lock acquire failed"), strings.Contains(l, "lock conflict"), strings.Contains(l, "get lock failed"), strings.Contains(l, "global lock"):
 		return "seata:lock-conflict"
 	case strings.Contains(l, "tcstub: transport"):
